@@ -26,6 +26,18 @@ func (v *Vue) evalTemplate(ctx VueContext, nodes []*html.Node, componentData map
 	if len(nodes) > 0 && nodes[0].Type == html.ElementNode && nodes[0].Data == "template" {
 		node := nodes[0]
 
+		// A component whose root is <template v-once> arrives here from evalInclude without
+		// passing the v-once check of evaluate (a <template v-once> met by evaluate has passed
+		// it and arrives unmarked).
+		if helpers.HasAttr(node, "v-once") {
+			admitted, ok := ctx.admitOnce(node)
+			if !ok {
+				return nil, nil
+			}
+			node = admitted
+			nodes = append([]*html.Node{node}, nodes[1:]...)
+		}
+
 		// Check for include attribute - handle inclusion first
 		if helpers.HasAttr(node, "include") {
 			vars, err := v.evalAttributes(ctx, node)
